@@ -92,6 +92,12 @@ add("C04", "pysym",
     "simulated clock; floats as reals; round-half-up on the 1us grid; phase on the grid; the delivery clause (recv = round6(max(end+d, prev))) is C03's",
     "DESIGN.md §6 C04")
 
+add("C02", "pysym",
+    "bounded symbolic execution of the unmodified handlers of rex.asynchronous on z3-backed proxies: every rule is executed on a state s and on s' = s plus an arbitrary FIFO-later suffix on an input queue (the only thing a thread schedule can change) and z3 decides that pops, writes and pokes agree (R1-R3); time.time/sleep replaced by symbolic stubs to decide clock independence; run_supervisor with/without override compared; counterexamples replayed on the unpatched handlers",
+    "Lemma-level claim: for queue prefixes <= 2(3) items, all non-blocking policies, blocking/selection/zip/ts_max rules: a rule that fires keeps firing with identical effects when more input has arrived, and a rule that does not fire changes nothing; no recorded simulated time depends on the wall clock or the real-time factor (2 ticks, rtf in {0,1,10}); run() and reset()/step() hand the runtime the same supervisor result. Thread interleavings themselves are NOT enumerated: global determinism follows from these lemmas plus C03/C04 by a paper argument stated in DESIGN.md.",
+    "GIL atomicity of deque operations; executors run tasks FIFO; single-producer/single-consumer queue ownership (AST table in the evidence, informational); suffixes honour the producers' contracts; wall-clock mode and the racy snapshot of other nodes' step states are outside",
+    "DESIGN.md §6 C02")
+
 def main():
     checks = []
     for pid in sorted(CHECKS):
